@@ -31,7 +31,7 @@ def ulp(torch, v, dtype):
     return float(torch.nextafter(t, torch.tensor(float("inf"), dtype=dtype)) - t)
 
 
-def eval_case(case, want, dtypes=("float64", "float32")):
+def eval_case(case, want, dtypes=("float64", "float32"), variant=0):
     """want: set of property ids whose clauses should be evaluated."""
     import torch
 
@@ -42,6 +42,9 @@ def eval_case(case, want, dtypes=("float64", "float32")):
         prop = CLAUSES[clause]
         if prop in want or prop == "drift":
             d = {"clause": clause, "prop": prop, "detail": detail, "fam": par["fam"], "tails": par["tails"], "par": jsonable_par(par), "desc": describe(par)}
+            if variant:
+                d["variant"] = variant
+                d["detail"] = "[parameter pre-image %d] %s" % (variant, detail)
             d.update(kw)
             out.append(d)
 
@@ -52,7 +55,7 @@ def eval_case(case, want, dtypes=("float64", "float32")):
     res = {}
     for dtn in dtypes:
         dt = getattr(torch, dtn)
-        rs = RealSpline(par, dtn)
+        rs = RealSpline(par, dtn, variant)
         eps = 2.0 ** -52 if dtn == "float64" else 2.0 ** -23
         xs = torch.tensor([float(x) for x, _ in ins], dtype=torch.float64).to(dt)
         oc, y, lad = rs.call(xs)
@@ -252,6 +255,12 @@ def spline_task(task):
     for c in cases:
         try:
             f = eval_case(c, want)
+            # other pre-images of the same normalised spline: every quadratic case with uniform knot
+            # heights (the raw values underflow), a hash-chosen quarter of the others
+            hq = c["par"].get("hq")
+            code = sum(c["par"]["ws"]) + len(c["pts"]) + (3 if c["par"]["tails"] else 0)
+            if (hq and len(set(hq)) == 1) or code % 4 == 0:
+                f += eval_case(c, want, variant=1 + code % 2)
         except Exception as e:  # noqa
             import traceback
 
